@@ -15,7 +15,7 @@ use syn::{
 use crate::{
     bound::{Bound, Bounds, WhereClauseBuilder},
     common::BinaryOp,
-    syn_utils::expand_self,
+    syn_utils::{expand_self, to_ref_elem_type},
 };
 
 use self::compare_op::{
@@ -204,17 +204,20 @@ fn build_binary_op(
             let field_ty = &field.field.ty;
             let lhs = with_ref(&member(quote!(self), field), lhs_is_ref);
             let rhs = with_ref(&member(quote!(rhs), field), rhs_is_ref);
-            let lhs_ty = with_ref(field_ty, lhs_is_ref);
-            let rhs_ty = with_ref(field_ty, rhs_is_ref);
+            let lhs_ty = with_ref_type(field_ty, lhs_is_ref);
+            let rhs_ty = with_ref_type(field_ty, rhs_is_ref);
             values.push(quote!(<#lhs_ty as #trait_<#rhs_ty>>::#func_name(#lhs, #rhs)));
             field.push_bounds_to(use_bounds, kind, &mut wcb);
         }
         let ctor_args = build_ctor_args(&item.fields, &values);
-        let wheres = wcb.build(|ty| match (lhs_is_ref, rhs_is_ref) {
-            (true, true) => quote!(for<'a> &'a #ty : #trait_<&'a #ty, Output = #ty>),
-            (true, false) => quote!(for<'a> &'a #ty : #trait_<#ty, Output = #ty>),
-            (false, true) => quote!(for<'a> #ty : #trait_<&'a #ty, Output = #ty>),
-            (false, false) => quote!(#ty : #trait_<#ty, Output = #ty>),
+        let wheres = wcb.build(|ty| {
+            let elem = to_ref_elem_type(ty);
+            match (lhs_is_ref, rhs_is_ref) {
+                (true, true) => quote!(for<'a> &'a #elem : #trait_<&'a #elem, Output = #ty>),
+                (true, false) => quote!(for<'a> &'a #elem : #trait_<#ty, Output = #ty>),
+                (false, true) => quote!(for<'a> #ty : #trait_<&'a #elem, Output = #ty>),
+                (false, false) => quote!(#ty : #trait_<#ty, Output = #ty>),
+            }
         });
         quote! {
             #[automatically_derived]
@@ -258,13 +261,16 @@ fn build_assign_op(
             let field_ty = &field.field.ty;
             let lhs = member(quote!(self), field);
             let rhs = with_ref(&member(quote!(rhs), field), rhs_is_ref);
-            let rhs_ty = with_ref(field_ty, rhs_is_ref);
+            let rhs_ty = with_ref_type(field_ty, rhs_is_ref);
             exprs.push(quote!(<#field_ty as #trait_<#rhs_ty>>::#func_name(&mut #lhs, #rhs)));
             field.push_bounds_to(use_bounds, kind, &mut wcb);
         }
-        let wheres = wcb.build(|ty| match rhs_is_ref {
-            true => parse_quote!(for<'a> #ty : #trait_<&'a #ty>),
-            false => parse_quote!(#ty : #trait_<#ty>),
+        let wheres = wcb.build(|ty| {
+            let elem = to_ref_elem_type(ty);
+            match rhs_is_ref {
+                true => parse_quote!(for<'a> #ty : #trait_<&'a #elem>),
+                false => parse_quote!(#ty : #trait_<#ty>),
+            }
         });
         quote! {
             #[automatically_derived]
@@ -304,14 +310,17 @@ fn build_unary_op(
         for field in fields {
             let field_ty = &field.field.ty;
             let lhs = with_ref(&member(quote!(self), field), lhs_is_ref);
-            let lhs_ty = with_ref(field_ty, lhs_is_ref);
+            let lhs_ty = with_ref_type(field_ty, lhs_is_ref);
             values.push(quote!(<#lhs_ty as #trait_>::#func_name(#lhs)));
             field.push_bounds_to(use_bounds, kind, &mut wcb);
         }
         let ctor_args = build_ctor_args(&item.fields, &values);
-        let wheres = wcb.build(|ty| match lhs_is_ref {
-            true => quote!(for<'a> &'a #ty : #trait_<Output = #ty>),
-            false => quote!(#ty : #trait_<Output = #ty>),
+        let wheres = wcb.build(|ty| {
+            let elem = to_ref_elem_type(ty);
+            match lhs_is_ref {
+                true => quote!(for<'a> &'a #elem : #trait_<Output = #ty>),
+                false => quote!(#ty : #trait_<Output = #ty>),
+            }
         });
         quote! {
             #[automatically_derived]
@@ -757,20 +766,21 @@ fn build_deref_for_struct(
         );
     }
     let target_ty = &fields[0].field.ty;
+    let target_elem = to_ref_elem_type(target_ty);
     let member = fields[0].member();
 
     let content = match kind {
         DeriveItemKind::Deref => {
             quote! {
                 type Target = #target_ty;
-                fn deref(&self) -> & #target_ty {
+                fn deref(&self) -> & #target_elem {
                     &self.#member
                 }
             }
         }
         DeriveItemKind::DerefMut => {
             quote! {
-                fn deref_mut(&mut self) -> &mut #target_ty {
+                fn deref_mut(&mut self) -> &mut #target_elem {
                     &mut self.#member
                 }
             }
@@ -792,6 +802,13 @@ fn with_ref(source: &impl ToTokens, is_ref: bool) -> TokenStream {
         quote!(&#source)
     } else {
         quote!(#source)
+    }
+}
+fn with_ref_type(ty: &Type, is_ref: bool) -> TokenStream {
+    if is_ref {
+        with_ref(&to_ref_elem_type(ty), true)
+    } else {
+        quote!(#ty)
     }
 }
 fn build_ctor_args(fields: &Fields, values: &[impl ToTokens]) -> TokenStream {
